@@ -272,6 +272,7 @@ fn run_spy(cap: Option<usize>, queue: Option<usize>, ops: &[String]) -> String {
             obs.push(format!("{}/#{}", res, added));
         }
     }
+    let len_before_wrappers = rx.len();
     drop(client);
     drop(queuing);
     // the queuing sink's worker holds a clone until it exits; wait for sole ownership
@@ -291,6 +292,16 @@ fn run_spy(cap: Option<usize>, queue: Option<usize>, ops: &[String]) -> String {
     };
     match owned {
         Some(s) => {
+            // the wrappers (client, queuing sink) are gone, the buffered sink is still alive: dropping a
+            // wrapper must not have made it write
+            if queue.is_none() {
+                while let Ok(p) = rx.try_recv() {
+                    pending_read.push(p);
+                }
+                obs.push(format!("ok0/{}", seen(&mut pending_read)));
+            } else {
+                obs.push(format!("ok0/#{}", rx.len() - len_before_wrappers));
+            }
             let before = rx.len();
             let r = catch_unwind(AssertUnwindSafe(move || drop(s)));
             if queue.is_none() {
